@@ -14,6 +14,10 @@ inc2 = os.path.join(inc, "round2")
 c2p = os.path.join(inc, "confirm2.json")
 if os.path.exists(c2p) and os.path.isdir(inc2):
     items += [(k, c, inc2, "r2") for k, c in sorted(json.load(open(c2p)).items())]
+inc3 = os.path.join(inc, "round3")
+c3p = os.path.join(inc, "confirm3.json")
+if os.path.exists(c3p) and os.path.isdir(inc3):
+    items += [(k, c, inc3, "r3") for k, c in sorted(json.load(open(c3p)).items())]
 for key, c, srcroot, tag in items:
     prop, m = key.split("/")
     src = os.path.join(srcroot, prop, m)
